@@ -41,7 +41,7 @@ def run(ctx):
     # V: recorded random executions (strings to ~1300 bytes: every capacity doubling and the 1 KiB malloc->realloc switch;
     # random 32/64-bit integers as limbs) validated by TLC against the same actions and operators
     rec = vlib.build_harness(lib, "c03_record", ["c03_record.cpp"])
-    files = ctx.record(rec, ctx.pick(6, 32), ctx.pick(2500, 12000), "V/ByteString", extra_args=["--mode", "0"])
+    files = ctx.record(rec, ctx.pick(6, 24), ctx.pick(2500, 8000), "V/ByteString", extra_args=["--mode", "0"])
     files += ctx.record(rec, ctx.pick(4, 16), ctx.pick(5000, 25000), "V/IntText", extra_args=["--mode", "1"])
     ctx.validate_traces("Trace_ByteString", "Trace_ByteString", files, label="V/ByteString", timeout=ctx.pick(600, 3000), xss="512m")
     ctx.exhaustive = True
